@@ -6,11 +6,13 @@
 package main
 
 import (
+	"errors"
 	"fmt"
 	"math/rand"
 	"runtime"
 	"sort"
 	"sync"
+	"sync/atomic"
 	"time"
 
 	"github.com/vapourismo/knx-go/knx"
@@ -39,7 +41,9 @@ type step struct {
 }
 
 var classCount = map[string]int64{}
-var totalReq, totalAccepted, totalAcks, totalWraps, totalReconnects int64
+var totalReq, totalAccepted, totalAcks, totalWraps, totalReconnects, totalAckFailures int64
+
+var errAckSend = errors.New("injected: no buffer space available")
 
 func stream(seed int64, tcp bool, consumer string, procs int, n int, real bool) {
 	runtime.GOMAXPROCS(procs)
@@ -74,6 +78,18 @@ func stream(seed int64, tcp bool, consumer string, procs int, n int, real bool) 
 			ch := chanOf(epoch)
 			cmu.Unlock()
 			s.Deliver(&knxnet.ConnRes{Channel: ch, Control: knxnet.HostInfo{Protocol: knxnet.UDP4}})
+		}
+	}
+	var failAcks bool = !real && seed%3 == 0
+	var ackCtr int32
+	if failAcks {
+		// transient transmission failures of acknowledgements (ENOBUFS-like): the
+		// telegram stays accepted and delivered, the gateway will repeat it
+		s.SendFault = func(p spec.Parsed, raw []byte) memsock.Fault {
+			if p.Service == spec.SvcTunnelRes && atomic.AddInt32(&ackCtr, 1)%29 == 7 {
+				return memsock.Fault{Fail: errAckSend}
+			}
+			return memsock.Fault{}
 		}
 	}
 	tcfg := knx.TunnelConfig{ResendInterval: 5 * time.Millisecond, HeartbeatInterval: 10 * time.Minute, ResponseTimeout: 200 * time.Millisecond, UseTCP: tcp}
@@ -302,8 +318,12 @@ func stream(seed int64, tcp bool, consumer string, procs int, n int, real bool) 
 	// compare ack trace
 	var gotAcks []ackT
 	for _, e := range s.Log() {
-		if e.Kind == memsock.Tx && !e.Err && e.P.Service == spec.SvcTunnelRes {
+		// a failed transmission of an acknowledgement is an attempt the rule asks for
+		if e.Kind == memsock.Tx && e.P.Service == spec.SvcTunnelRes {
 			gotAcks = append(gotAcks, ackT{e.P.Channel, e.P.Seq, e.P.Status})
+			if e.Err {
+				totalAckFailures++
+			}
 		}
 	}
 	totalAcks += int64(len(gotAcks))
@@ -406,10 +426,10 @@ func run(rr *mon.Run) {
 	n := r.Pick(72, 1500)
 	procs := []int{1, 2, 4, 16}
 	consumers := []string{"ready", "intermittent", "stalled"}
-	for i := 0; i < n; i++ {
+	for i := 0; i < n && !r.Enough(); i++ {
 		stream(r.Seed()*10000+int64(i), i%4 == 3, consumers[i%3], procs[(i/3)%4], 1200, false)
 	}
-	for i := 0; i < r.Pick(6, 100); i++ {
+	for i := 0; i < r.Pick(6, 100) && !r.Enough(); i++ {
 		stream(r.Seed()*20000+int64(i), false, consumers[i%3], 16, 400, true)
 	}
 	r.Observe("requests_injected", totalReq)
@@ -418,6 +438,7 @@ func run(rr *mon.Run) {
 	r.Observe("acknowledgements_on_the_wire", totalAcks)
 	r.Observe("sequence_wraps_crossed", totalWraps)
 	r.Observe("reconnects", totalReconnects)
+	r.Observe("acknowledgement_transmissions_failed_by_injection", totalAckFailures)
 	r.Assume("frames are injected in lock-step (next frame offered after the previous one was taken), so the acknowledgement trace is totally ordered")
 	r.Assume("before the first accepted telegram of an epoch, number 255 is not injected (there is no preceding number yet)")
 	if totalAcks == 0 || totalWraps == 0 {
